@@ -41,6 +41,11 @@ Theorem C13_no_inplace_ops : src_inplace_ops = ["aten.copy_"].
 Proof. exact tie_inplace_ops. Qed.
 Print Assumptions C13_no_inplace_ops.
 
+(* no op implementation, kernel wrapper or quantization entry point computes in place (x *= y, x.mul_(y), out=): a result
+   computed in place can alias an operand - Tensor.to() returns its argument when nothing changes - i.e. a module's scale *)
+Theorem C13_no_inplace_arithmetic : src_op_inplace_arith = [].
+Proof. exact tie_op_inplace_arith. Qed.
+
 Theorem C13_write_sets :
   src_effects_freeze = ["store self.weight"] /\
   src_effects_quantize = ["call setattr"; "store qmodule.name"] /\
